@@ -263,9 +263,20 @@ def c01_loopstate(R):
     n = 0
     for q, fn in m.functions.items():
         for loop in (x for x in walk_no_nested(fn) if isinstance(x, ast.While)):
-            prevs = sorted({t.id for st in ast.walk(loop) if isinstance(st, ast.Assign) for t in st.targets if isinstance(t, ast.Name) and t.id.startswith("prev_")})
-            if not prevs:
+            # loop-carried state: locals (re)assigned inside the loop that were initialised to None before it -
+            # "nothing seen yet" - i.e. they describe the previous element, whatever they are called
+            inside = {t.id for st in ast.walk(loop) if isinstance(st, ast.Assign) for t in st.targets if isinstance(t, ast.Name)}
+            before = set()
+            for st in walk_no_nested(fn):
+                if st is loop:
+                    break
+                if isinstance(st, ast.Assign) and isinstance(st.value, ast.Constant) and st.value.value is None:
+                    before |= {t.id for t in st.targets if isinstance(t, ast.Name)}
+            index = {st.target.id for st in ast.walk(loop) if isinstance(st, ast.AugAssign) and isinstance(st.target, ast.Name)} & {x.id for x in ast.walk(loop.test) if isinstance(x, ast.Name)}
+            prevs = sorted((inside & before) - index)
+            if not prevs or len(index) != 1:
                 continue
+            idx = next(iter(index))
 
             def paths(stmts):
                 """All straight-line paths (lists of simple statements) through a statement list."""
@@ -279,7 +290,7 @@ def c01_loopstate(R):
                 return out
 
             for p in paths(loop.body):
-                advances = any(isinstance(st, ast.AugAssign) and isinstance(st.target, ast.Name) and st.target.id == "i" for st in p)
+                advances = any(isinstance(st, ast.AugAssign) and isinstance(st.target, ast.Name) and st.target.id == idx for st in p)
                 if not advances:
                     continue
                 n += 1
@@ -293,9 +304,9 @@ def c01_loopstate(R):
                     f"{q}: every index-advancing path sets {prevs}",
                     f"{q}: an iteration path that advances the index leaves {missing} from an earlier element: the next "
                     f"element can be merged with a slice that is not its neighbour",
-                    construct=f"{q}: path `{'; '.join(norm(s) for s in p)[:120]}` keeps stale {missing}",
+                    construct=f"{q}: an index-advancing path keeps {len(missing)} stale previous-element local(s)",
                 )
-    R.need(n >= 1, "no prev_* state loop found (anchor vanished)")
+    R.need(n >= 1, "no loop with previous-element state found (anchor vanished)")
 
 
 # ----------------------------------------------------------------------------- C04.intshift (seed C04-rotate-mask-unguarded-width)
@@ -580,6 +591,14 @@ def c09_arms(R):
     m = tree.mod(Z3P)
     fn = tree.func(Z3P, "BackendZ3._abstract_internal")
     opnames = {d.name for d in registry(tree).decls}
+    # the local that holds the claripy op name: whatever is assigned from op_map[...]
+    opvar = [
+        st.targets[0].id
+        for st in walk_no_nested(fn)
+        if isinstance(st, ast.Assign) and isinstance(st.targets[0], ast.Name) and isinstance(st.value, ast.Subscript) and ast.unparse(st.value.value) == "op_map"
+    ]
+    R.need(len(set(opvar)) == 1, "_abstract_internal: the local holding op_map[...] not found")
+    opvar = opvar[0]
     n = 0
     for r in (x for x in walk_no_nested(fn) if isinstance(x, ast.Return)):
         v = r.value
@@ -588,7 +607,7 @@ def c09_arms(R):
         ctor = dotted(v.func).split(".", 1)[1]
         keys = []
         for t, pol in guards.guards_of(r):
-            if pol and isinstance(t, ast.Compare) and len(t.ops) == 1 and ast.unparse(t.left) == "op_name":
+            if pol and isinstance(t, ast.Compare) and len(t.ops) == 1 and ast.unparse(t.left) == opvar:
                 c = t.comparators[0]
                 if isinstance(t.ops[0], ast.Eq) and isinstance(c, ast.Constant):
                     keys = [c.value]
